@@ -48,3 +48,34 @@ Theorem reindex_only_when_unindexed : forall idxs : list Z,
   render_indices idxs = if forallb (Z.eqb (-1)) idxs then map Z.of_nat (seq 0 (List.length idxs)) else idxs.
 Proof. exact render_indices_spec. Qed.
 Print Assumptions reindex_only_when_unindexed.
+
+(** "both survive the path through the project configuration file": what
+    `naunet init` stores for --rate-modifier / --ode-modifier is what was written
+    (model of InitCommand in Model/Config; the configuration file itself is
+    written and read by tomlkit, exercised by the harness) *)
+From Coq Require Import Ascii.
+From Naunet Require Import Lib.PyStr Model.Config Proofs.DecodeProofs Proofs.ConfigProofs.
+Open Scope string_scope.
+
+Theorem rate_modifiers_survive_init : forall l,
+  Forall (entry_ok ":"%char true) l -> keys_fresh l ->
+  parse_rate_mods (map (kv ":") l) = Some l.
+Proof. exact parse_rate_mods_kv. Qed.
+Print Assumptions rate_modifiers_survive_init.
+
+Theorem ode_modifier_survives_init : forall key fact deps,
+  nosep ":"%char key -> nosep ":"%char fact -> nosep ","%char fact ->
+  Forall (fun d => word_ok (chars d) /\ nosep ":"%char d /\ nosep ","%char d /\ nosep "["%char d /\ nosep "]"%char d) deps ->
+  deps <> [] ->
+  parse_om_item (key ++ ":" ++ fact ++ ",[" ++ join " "%char deps ++ "]")%string =
+  option_map (fun ds => (key, fact, ds))
+             (Some (split_ws (strip (replace "]" "" (replace "[" "" ("[" ++ join " "%char deps ++ "]")%string))))).
+Proof. exact parse_om_item_lemma. Qed.
+Print Assumptions ode_modifier_survives_init.
+
+(* non-vacuity, and the value that does not survive (recorded under C20) *)
+Theorem modifiers_init_examples :
+  parse_rate_mods ["3:1.0e-10 * zeta"; "7 : 0.0"]%string = Some [("3", "1.0e-10 * zeta"); ("7", "0.0")]%string /\
+  parse_om_item "H2:-2.0 * k[0],[H H]"%string = Some ("H2", "-2.0 * k[0]", ["H"; "H"])%string.
+Proof. vm_compute. split; reflexivity. Qed.
+Print Assumptions modifiers_init_examples.
